@@ -52,7 +52,7 @@ def clause_reachability(ctx: Ctx, pid, *, maxlen=6, versions=(3, 2)):
     seen = set()
     for ver in versions:
         cfg = (f"INIT Init\nNEXT Next\nINVARIANT Seen\nCHECK_DEADLOCK FALSE\nCONSTANTS\nRetries = 2\nVer = {ver}\nCtrMod = 4\nHSRetries = 1\n"
-               f"DevLevel = TRUE\nMaxLen = {maxlen}\n")
+               f"DevLevel = TRUE\nMaxLen = {maxlen}\nSmall = FALSE\n")
         r = run_tlc("MonVacuity", cfg, name=f"{pid}_vacuity_v{ver}", workers=NCPU_, timeout=1500, heap="10g")
         ctx.checker_cmds.append(r.cmd)
         ctx.states += r.distinct
@@ -60,6 +60,15 @@ def clause_reachability(ctx: Ctx, pid, *, maxlen=6, versions=(3, 2)):
         seen |= {p[2] for p in r.prints if isinstance(p, list) and len(p) == 3 and p[0] == "CLAUSE" and p[1] == pid}
         if want <= seen:
             break
+    if not want <= seen:
+        # clauses that need a longer, well-behaved prefix (e.g. a complete authentication before the interesting call): reduced alphabet, longer sequences
+        cfg = ("INIT Init\nNEXT Next\nINVARIANT Seen\nCHECK_DEADLOCK FALSE\nCONSTANTS\nRetries = 2\nVer = 3\nCtrMod = 4\nHSRetries = 1\n"
+               "DevLevel = TRUE\nMaxLen = 9\nSmall = TRUE\n")
+        r = run_tlc("MonVacuity", cfg, name=f"{pid}_vacuity_small", workers=NCPU_, timeout=1500, heap="10g")
+        ctx.checker_cmds.append(r.cmd)
+        ctx.states += r.distinct
+        ctx.transitions += r.generated
+        seen |= {p[2] for p in r.prints if isinstance(p, list) and len(p) == 3 and p[0] == "CLAUSE" and p[1] == pid}
     ctx.extra["monitor_clauses_reachable"] = {"clauses": len(want), "fired_by_some_event_sequence": len(want & seen)}
     if not want <= seen:
         raise MachineryError(f"monitor clauses of {pid} that no explored event sequence can fire (vacuous?): {sorted(want - seen)}")
